@@ -52,6 +52,10 @@ type scriptedReceiver struct {
 	srv     *httptest.Server
 	failNth map[int]int // request sequence number -> status to answer
 	delay   time.Duration
+	// slowOnce: the first request whose path matches is answered this late (a receiver that stalls once)
+	slowOnceRe  *regexp.Regexp
+	slowOnceDur time.Duration
+	slowDone    bool
 }
 
 func newScriptedReceiver() *scriptedReceiver {
@@ -60,6 +64,15 @@ func newScriptedReceiver() *scriptedReceiver {
 		b, _ := io.ReadAll(r.Body)
 		if sr.delay > 0 {
 			time.Sleep(sr.delay)
+		}
+		sr.mu.Lock()
+		stall := sr.slowOnceRe != nil && !sr.slowDone && sr.slowOnceRe.MatchString(r.URL.Path)
+		if stall {
+			sr.slowDone = true
+		}
+		sr.mu.Unlock()
+		if stall {
+			time.Sleep(sr.slowOnceDur)
 		}
 		u, p, ok := r.BasicAuth()
 		sr.mu.Lock()
@@ -438,6 +451,7 @@ func genC16(c *Ctx) {
 		}
 	}
 	genCsrc(c)
+	c16RealTime(c, s)
 	for i := 0; i < c.N(3, 12); i++ {
 		a := assets[r.Intn(len(assets))]
 		c16EarlyDelete(c, s, a, r.Pick(a.LoopDurMS+1, 3*a.LoopDurMS+17))
@@ -701,5 +715,55 @@ func c16Check(c *Ctx, s *app.Server, a *app.VerifAsset, cf string, now int, dur,
 		if len(perRep) != nReps || len(reps) > 0 {
 			c.Violate("step-count", fmt.Sprintf("step %d delivers to %d of %d representations (%v)", step, len(perRep), nReps, reps), []string{line}, map[string]any{"out": out})
 		}
+	}
+}
+
+
+// c16RealTime: a session on the wall clock (no test instant) with $Time$ addresses against a receiver that stalls once for
+// longer than two segment durations: the sender catches up afterwards — and still delivers every segment once, in order.
+func c16RealTime(c *Ctx, s *app.Server) {
+	a := findVAsset("testpic_2s")
+	if a == nil {
+		return
+	}
+	sr := newScriptedReceiver()
+	defer sr.srv.Close()
+	sr.slowOnceRe = regexp.MustCompile(`/V300/\d+\.cmfv$`)
+	sr.slowOnceDur = 4500 * time.Millisecond
+	line := "# POST /api/cmaf-ingests /livesim2/segtimeline_1/testpic_2s/Manifest.mpd (wall clock); the receiver answers the first V300 segment after 4.5 s; 9 s later DELETE"
+	code, resp, hung := apiCall(s, "POST", "/api/cmaf-ingests", map[string]any{"destRoot": sr.srv.URL + "/rt", "destName": "ch", "livesimURL": "/livesim2/segtimeline_1/testpic_2s/Manifest.mpd"})
+	if hung || code >= 300 {
+		return
+	}
+	id, _ := resp["id"].(string)
+	time.Sleep(9 * time.Second)
+	apiCall(s, "DELETE", "/api/cmaf-ingests/"+id, nil)
+	time.Sleep(100 * time.Millisecond)
+	c.Count("realtime-sessions")
+	per := map[string][]int64{}
+	for _, q := range sr.snapshot() {
+		m := sessPathRe.FindStringSubmatch(q.path)
+		if m == nil || m[2] == "init" {
+			continue
+		}
+		t, _ := strconv.ParseInt(m[2], 10, 64)
+		per[m[1]] = append(per[m[1]], t)
+	}
+	for rep, ts := range per {
+		c.Count("realtime-uploads")
+		step := int64(180000) // V300: 2 s at 90 kHz
+		tol := int64(0)
+		if rep != "V300" {
+			step, tol = 96000, 1100 // A48: 2 s at 48 kHz, cut at AAC frames
+		}
+		for i := 1; i < len(ts); i++ {
+			if d := ts[i] - ts[i-1]; d < step-tol || d > step+tol {
+				c.Violate("realtime-order", fmt.Sprintf("representation %s received the segments %v: after %d comes %d (a step of %d, one segment is %d)", rep, ts, ts[i-1], ts[i], d, step), []string{line}, nil)
+				break
+			}
+		}
+	}
+	if len(per["V300"]) < 2 {
+		c.Count("realtime-too-few-uploads")
 	}
 }
